@@ -20,8 +20,10 @@ CLAIMED = {
     "C11": (
         "other",
         "contract-based verification by exhaustive decision tables (FinEx): every cell of the static-rule tables (mutability lattice x call kind, state/environment access x mutability, "
-        "forbidden assignments, recursion, loop bounds) is run through the real front end and compared with the table the property dictates",
-        "Scoped: decides the rule kernels on their whole abstract domain (132 cells); does not decide 'accepted => promise holds at run time' for every program.",
+        "forbidden assignments, recursion, loop bounds) is run through the real front end and compared with the table the property dictates; loop-bound templates: bytecode vs reference semantics, z3",
+        "Scoped: decides the rule kernels on their whole abstract domain (152 cells: mutability lattice x call kind, state/transient/environment access x mutability, forbidden assignments, iterator mutation, recursion, loop bounds); "
+        "the run-time side of the loop-bound promise (range(n, bound=), range(a, b, bound=) with unsigned and signed counters, DynArray iteration) is proved per template for all start/end/count words against the reference semantics. "
+        "Does not decide 'accepted => promise holds at run time' for every program.",
         "Trusted: the expected column (from the property statement).",
         "DESIGN.md 3/C11",
     ),
